@@ -74,6 +74,14 @@ pub fn gen_stream(name: &str, seed: u64, n: usize, tier: &str) -> Vec<String> {
             })
             .collect(),
         "run_sha256tree" => interp_oracles::generate_run_sha256tree(&mut rng, n),
+        // C01: the bare-path programs of the `paths` stream as reference requests (default flags only)
+        "ref_paths" => progs::generate_paths(&mut rng, n, tier)
+            .iter()
+            .filter_map(|l| {
+                let w: Vec<&str> = l.split(' ').collect();
+                if w.len() == 8 && w[2] == "chia" && w[3] == "0" && w[5] == "-" { Some(format!("REF f{} {} {} {}", w[1], w[4], w[6], w[7])) } else { None }
+            })
+            .collect(),
         "op_limits" => progs::generate_op_limits(&mut rng, n, tier),
         "run_default" => progs::generate_run(&mut rng, n, tier, &["chia"], "default"),
         "op" => progs::generate_op(&mut rng, n, tier, None),
